@@ -360,7 +360,7 @@ func (s *Stage) Receive(file *sts.Partial, reader io.Reader) (err error) {
 		verifhook.Point("stage.d.full", path)
 		s.toCache(final, stateReceived)
 		s.logDebug("File received:", cmp.Source, cmp.Name)
-		verifhook.Point("stage.spawn.validate", final.name)
+		verifhook.Point("stage.spawn.validate", final.name, s.rootDir)
 		go s.processQueue(final)
 	}
 	return
@@ -566,7 +566,7 @@ func (s *Stage) Recover() {
 	for _, file := range finalize {
 		finalFile := s.partialToFinal(file)
 		s.toCache(finalFile, stateValidated)
-		verifhook.Point("stage.spawn.finalize", finalFile.name)
+		verifhook.Point("stage.spawn.finalize", finalFile.name, s.rootDir)
 		go s.finalizeQueue(finalFile)
 	}
 	if len(validate) > 0 {
@@ -769,7 +769,7 @@ func (s *Stage) cleanWaiting() {
 					f.wait = nil
 				}
 				f.prev = ""
-				verifhook.Point("stage.spawn.finalize", f.name)
+				verifhook.Point("stage.spawn.finalize", f.name, s.rootDir)
 				go s.finalizeQueue(f)
 			}
 		}
@@ -808,6 +808,8 @@ func (s *Stage) partialToFinal(file *sts.Partial) *finalFile {
 }
 
 func (s *Stage) processQueue(file *finalFile) {
+	verifhook.Point("stage.enq.validate.begin", file.name, s.rootDir)
+	defer verifhook.Point("stage.enq.validate.end", file.name, s.rootDir)
 	// s.logDebug("Pushing onto validate chan:", file.name)
 	// defer s.logDebug("Pushed onto validate chan:", file.name)
 	s.validateCh <- file
@@ -816,7 +818,7 @@ func (s *Stage) processQueue(file *finalFile) {
 func (s *Stage) processHandler() {
 	for f := range s.validateCh {
 		s.process(f)
-		verifhook.Point("stage.done.validate", f.name)
+		verifhook.Point("stage.done.validate", f.name, s.rootDir)
 	}
 }
 
@@ -824,10 +826,10 @@ func (s *Stage) process(file *finalFile) {
 	// s.logDebug("Validating:", file.name)
 	// defer s.logDebug("Validated:", file.name)
 
+	verifhook.Point("stage.process.begin", file.name, s.rootDir)
 	fileLock := s.getPathLock(file.path)
 	fileLock.Lock()
 	defer fileLock.Unlock()
-	verifhook.Point("stage.process.begin", file.name)
 
 	existingState := s.getFileState(file.path)
 	if existingState == stateUnknown || existingState != stateReceived {
@@ -869,11 +871,13 @@ func (s *Stage) process(file *finalFile) {
 	verifhook.Point("stage.d.wait", file.path)
 	s.toCache(file, stateValidated)
 
-	verifhook.Point("stage.spawn.finalize", file.name)
+	verifhook.Point("stage.spawn.finalize", file.name, s.rootDir)
 	go s.finalizeQueue(file)
 }
 
 func (s *Stage) finalizeQueue(file *finalFile) {
+	verifhook.Point("stage.enq.finalize.begin", file.name, s.rootDir)
+	defer verifhook.Point("stage.enq.finalize.end", file.name, s.rootDir)
 	s.logDebug("Pushing onto finalize chan:", file.name)
 	defer s.logDebug("Pushed onto finalize chan:", file.name)
 	s.finalizeCh <- file
@@ -883,17 +887,17 @@ func (s *Stage) finalizeHandler() {
 	defer s.logDebug("Finalize channel done:")
 	for f := range s.finalizeCh {
 		s.logDebug("Finalize chain:", f.name)
-		verifhook.Point("stage.finh.begin", f.name)
+		verifhook.Point("stage.finh.begin", f.name, s.rootDir)
 		if state := s.getFileState(f.path); state != stateValidated {
 			// Skip redundancies or mistakes in the pipe
 			s.logDebug("Already finalized or not ready:", f.name)
-			verifhook.Point("stage.done.finalize", f.name)
+			verifhook.Point("stage.done.finalize", f.name, s.rootDir)
 			continue
 		}
 		if s.isFileReady(f) {
 			s.finalize(f)
 		}
-		verifhook.Point("stage.done.finalize", f.name)
+		verifhook.Point("stage.done.finalize", f.name, s.rootDir)
 	}
 }
 
@@ -1016,7 +1020,7 @@ func (s *Stage) finalize(file *finalFile) {
 	waiting := s.fromWait(file.path)
 	for _, waitFile := range waiting {
 		s.logDebug("Stage found waiting:", waitFile.name, "<-", file.name)
-		verifhook.Point("stage.spawn.finalize", waitFile.name)
+		verifhook.Point("stage.spawn.finalize", waitFile.name, s.rootDir)
 		go s.finalizeQueue(waitFile)
 	}
 }
@@ -1053,7 +1057,7 @@ func (s *Stage) putFileAway(file *finalFile) (targetPath string, err error) {
 			file.nErr++
 			time.AfterFunc(time.Second*time.Duration(file.nErr), func() {
 				s.logDebug("Attempting finalize again after failure:", file.name)
-				verifhook.Point("stage.spawn.finalize", file.name)
+				verifhook.Point("stage.spawn.finalize", file.name, s.rootDir)
 				go s.finalizeQueue(file)
 			})
 		}
@@ -1163,7 +1167,7 @@ func (s *Stage) toWait(prevPath string, next *finalFile, howLong time.Duration) 
 		next.wait = time.AfterFunc(howLong, func(handle func(*finalFile), f *finalFile) func() {
 			return func() {
 				s.logDebug("Attempting finalize again:", f.name)
-				verifhook.Point("stage.spawn.finalize", f.name)
+				verifhook.Point("stage.spawn.finalize", f.name, s.rootDir)
 				handle(f)
 			}
 		}(s.finalizeQueue, next))
